@@ -1,7 +1,7 @@
 (* The two round trips of the Pruefer model. *)
 From Coq Require Import List ZArith Bool Arith Lia.
 From Mamba Require Import Codec.PruferMulticodeBase Codec.PruferMulticodeFacts Codec.PruferModel
-  Codec.PruferTree Codec.PruferDecodeProofs Codec.PruferEncodeProofs.
+  Codec.PruferTree Codec.PruferDecodeProofs Codec.PruferEncodeProofs Codec.PruferConnected.
 Import ListNotations.
 
 (* g is a tree: leaf elimination on all its vertices (see PruferTree.v, PruferConnected.v) *)
@@ -97,4 +97,29 @@ Proof.
   rewrite G in E1. rewrite E1 in E2. inversion E2 as [HM].
   clear - HM. revert c2 HM. induction c1 as [|a c1 IH]; intros [|b c2] Q; simpl in Q; try discriminate; auto.
   inversion Q. f_equal; [lia|auto].
+Qed.
+
+(* ------------------------------------------------------------------ in terms of connectedness *)
+(* the usual definition: connected, with n - 1 edges *)
+Definition connected_tree (g : graph) : Prop :=
+  connected (gadj g) (seq 0 (gn g)) /\ gm g = (Z.of_nat (gn g) - 1)%Z.
+
+Theorem is_tree_iff_connected_tree g : simple g -> gn g >= 1 -> (is_tree g <-> connected_tree g).
+Proof. apply tree_iff_connected. Qed.
+
+Theorem prufer_decode_connected_tree c : valid_code c -> connected_tree (code_graph c).
+Proof.
+  intros V. apply is_tree_iff_connected_tree.
+  - apply code_graph_simple.
+  - cbn. lia.
+  - apply (prufer_decode_encode c V).
+Qed.
+
+Theorem prufer_encode_decode_connected g :
+  simple g -> gn g >= 2 -> connected_tree g ->
+  exists c, prufer_encode g = Ok (map Z.of_nat c) /\ length c = gn g - 2 /\ valid_code c /\
+            prufer_decode (map Z.of_nat c) = Ok (gn g, tri_bits g).
+Proof.
+  intros Hs Hn T. apply prufer_encode_decode; auto.
+  apply is_tree_iff_connected_tree; auto. lia.
 Qed.
